@@ -68,6 +68,10 @@ WELL = {
                       '{F G H I J} K.', P_BABEL),
     'babel_env': ('A\n\\begin{otherlanguage}{german}\nB C\n\\end{otherlanguage}\nD\n'
                   '\\begin{otherlanguage*}{french}E\\end{otherlanguage*} F', P_BABEL),
+    # short inclusions with leading / trailing white space (placeholder representation)
+    'babel_incl_lead_ws': ('A b \\foreignlanguage{german}{\n  der Hund} c d. E \\foreignlanguage{german}'
+                           '{  x} f \\foreignlanguage{german}{ \t y  } g.', P_BABEL),
+    'babel_incl_only_ws': ('A b \\foreignlanguage{german}{   } c \\foreignlanguage{german}{\n} d.', P_BABEL),
     'babel_nested': ('A \\foreignlanguage{german}{B \\foreignlanguage{french}{C} D} E'
                      '\\footnote{F \\foreignlanguage{german}{G}}', P_BABEL),
     'german_short': ('\\usepackage[german]{babel}"a "o "s "` "\' "- "= A"B', P_BABEL),
@@ -114,6 +118,9 @@ WELL = {
     'cite_end': ('\\cite{k}', {}),
     'ref_end': ('\\ref{k}', {}),
     'heading_end': ('\\section{A}', {}),
+    'heading_bare_end': ('A\n\\section x', {}),
+    'heading_macro_end': ('\\title\\LaTeX', {}),
+    'heading_bare_mid': ('A\n\\subsection y B', {}),
     'item_end': ('\\begin{enumerate}\\item', {}),
     'phrase_end': ('A \\zzfoo{B C} D', {}),
     'body_blank_lines_removed': ('\\newcommand{\\p}{          \n\n}x\n{}\\p', {}),
